@@ -134,8 +134,9 @@ def refAt (a : VArr) (i : Nat) : Res VRef :=
   else .panic
 
 /-- length handed to `PtrGuard::read/write` by `VolatileArrayRef::ptr_guard{,_mut}`:
-    `self.len()`, i.e. the element count as the source has it. -/
-def guardLen (a : VArr) : Nat := a.nelem
+    `self.len() * self.element_size()`.  (Before the `fix:` commit in /repo the source
+    passed `self.len()`, the element count — defect D3, see Props/C01 and Props/C17.) -/
+def guardLen (a : VArr) : Nat := a.nelem * a.ty.size
 
 /-- number of bytes the array designates -/
 def byteLen (a : VArr) : Nat := a.nelem * a.ty.size
@@ -274,20 +275,19 @@ def load (m : Mem) (a : VArr) (i : Nat) : Res (List UInt8) := do
 
 /-- `VolatileArrayRef::copy_to(buf)` with `buf.len() = blen` elements: returns the
     element count and the bytes stored at the front of `buf`.  Element size 1 takes
-    the byte fast path; otherwise a loop of `min(blen, nelem)` packed reads followed
-    by `ptr.offset_from(start)`, which panics for a zero-sized `T`. -/
+    the byte fast path; otherwise a loop of `count = min(blen, nelem)` packed reads,
+    returning `count`.  (Before the `fix:` commit the result was computed with
+    `ptr.offset_from(start)`, which panics for a zero-sized `T` — defect D2.) -/
 def copyTo (m : Mem) (a : VArr) (blen : Nat) : Res (Nat × List UInt8) :=
   if a.ty.size = 1 then do
     let s ← a.toSlice
     let total := min blen s.size
     let d ← copyFromVolatileSlice m s total
     pure (total, d)
-  else
+  else do
     let k := min blen a.nelem
-    if a.ty.size = 0 then .panic
-    else do
-      let d ← m.readAt a.addr (k * a.ty.size)
-      pure (k, d)
+    let d ← m.readAt a.addr (k * a.ty.size)
+    pure (k, d)
 
 /-- `VolatileArrayRef::copy_from(buf)`: `buf` is given as bytes (`blen` elements) -/
 def copyFrom (m : Mem) (a : VArr) (blen : Nat) (buf : List UInt8) : Res Mem :=
@@ -311,17 +311,22 @@ def copyToSlice (m : Mem) (a : VArr) (dst : VSlice) : Res Mem := do
 end VArr
 
 namespace VSlice
+/-- element count used by `VolatileSlice::copy_to/copy_from::<T>`:
+    `self.size.checked_div(size_of::<T>()).unwrap_or(buf.len())` — a zero-sized `T`
+    occupies no memory, any number of elements fits.  (Before the `fix:` commit this was
+    `self.size / size_of::<T>()`, a division by zero for zero-sized `T` — defect D2.) -/
+def elemCount (s : VSlice) (t : Ty) (blen : Nat) : Nat :=
+  if t.size = 0 then blen else s.size / t.size
+
 /-- `VolatileSlice::copy_to::<T>(buf)`: size 1 fast path, else
-    `count = self.size / size_of::<T>()` (division!), `get_array_ref(0, count).unwrap()`,
-    `source.copy_to(buf)`. -/
+    `get_array_ref(0, count).unwrap()`, `source.copy_to(buf)`. -/
 def copyTo (m : Mem) (s : VSlice) (t : Ty) (blen : Nat) : Res (Nat × List UInt8) :=
   if t.size = 1 then do
     let total := min blen s.size
     let d ← copyFromVolatileSlice m s total
     pure (total, d)
   else do
-    let count ← divP s.size t.size
-    let a ← Res.unwrapRes (s.getArrayRef 0 count t)
+    let a ← Res.unwrapRes (s.getArrayRef 0 (s.elemCount t blen) t)
     a.copyTo m blen
 
 /-- `VolatileSlice::copy_from::<T>(buf)` -/
@@ -331,8 +336,7 @@ def copyFrom (m : Mem) (s : VSlice) (t : Ty) (blen : Nat) (buf : List UInt8) : R
     let (m', _) ← copyToVolatileSlice m s buf total
     pure m'
   else do
-    let count ← divP s.size t.size
-    let a ← Res.unwrapRes (s.getArrayRef 0 count t)
+    let a ← Res.unwrapRes (s.getArrayRef 0 (s.elemCount t blen) t)
     a.copyFrom m blen buf
 end VSlice
 
